@@ -8,6 +8,7 @@ import NeoModel.Model.Exec
 import NeoModel.Proofs.ExecSim
 import NeoModel.Proofs.ExecSpec
 import NeoModel.Proofs.ExecFacts
+import NeoModel.Proofs.ExecFrame
 namespace NeoModel.Exec
 
 deriving instance DecidableEq for Outcome
@@ -79,6 +80,18 @@ theorem impl_refines_spec_fails : ∃ pre t, (implRun pre t).eff ≠ (specRun pr
 
 example : (implRun [] finallyCallWitness).eff = (true, [.set (0, 3) 4], [(0, 8)]) := by decide
 example : (specRun [] finallyCallWitness).eff = (true, [.set (0, 3) 4, .set (1, 3) 3], [(1, 7), (0, 8)]) := by decide
+
+/-- The replay of the defect this check found and /repo fixed in db399c7 (a call made from a CATCH
+    block whose TRY also has a FINALLY was not isolated in a layer, so the finally block ran on the
+    failed callee's writes and aborted): the tree is `safe`, so the theorem now covers it. With the
+    old rule (`inTry` unchanged in the catch block) `implRun` faults here while `specRun` halts. -/
+def catchFinallyWitness : Tree :=
+  .try_ (.call 0 Flags.all (.seq (.del 0) (.try_ .throw true (.call 1 Flags.all (.seq (.call 0 Flags.all (.put 0 1)) .throw))
+    true (.ifp 0 .abort)))) true .skip false .skip
+
+example : (implRun [] catchFinallyWitness).eff = (specRun [] catchFinallyWitness).eff :=
+  impl_refines_spec_partial _ _ (by decide)
+example : (implRun [] catchFinallyWitness).halt = true := by decide
 
 /-! ### 2. A faulting transaction changes nothing but the fees -/
 
@@ -192,6 +205,55 @@ example :
     ⟨[.set (0, 2) 2, .set (0, 1) 2] ++ demoPre, [(0, 1), (0, 3)], false⟩
     rfl rfl rfl rfl
 
+/-! ### 3b. The same guarantee for EVERY tree, stated on the implementation model alone -/
+
+/-- For EVERY tree, context and state: a contract call made while a TRY of the calling contract
+    is active and whose callee ends with an exception leaves the caller's DAO (own layer and all
+    lower ones) and the notification list exactly as they were before the call. -/
+theorem callee_exception_undone (c' : Nat) (fl : Flags) (body : Tree) (x : Ctx) (s s' : ISt)
+    (hT : x.inTry = true) (h : im (.call c' fl body) x s = .thrown s') :
+    s'.top = s.top ∧ s'.below = s.below ∧ s'.ev = s.ev := by
+  simp only [im] at h
+  split at h
+  · cases hm : (x.f.and fl).mut with
+    | true =>
+      simp only [hT, hm, Bool.and_self, if_true] at h
+      have hf := im_frame body ⟨c', x.f.and fl, false, x.h⟩ s.push
+      cases hr : im body ⟨c', x.f.and fl, false, x.h⟩ s.push with
+      | norm s1 => rw [hr] at h; cases h
+      | fault s1 => rw [hr] at h; cases h
+      | thrown s1 =>
+        rw [hr] at h hf
+        simp only [Res.thrown.injEq] at h
+        obtain ⟨⟨hb, hp⟩, he⟩ := hf
+        simp only [ISt.push] at hb hp
+        subst h
+        have hu : s1.unload true s.ev.length = { s1 with top := s.top, below := s.below, ev := s.ev } := by
+          simp [ISt.unload, he, ISt.drop, hb, take_prefix hp]
+        rw [hu]
+        exact ⟨rfl, rfl, rfl⟩
+    | false =>
+      simp only [hT, hm, Bool.and_false, Bool.false_eq_true, if_false] at h
+      have hro := ro body ⟨c', x.f.and fl, false, x.h⟩ s hm
+      cases hr : im body ⟨c', x.f.and fl, false, x.h⟩ s with
+      | norm s1 => rw [hr] at h; cases h
+      | fault s1 => rw [hr] at h; cases h
+      | thrown s1 =>
+        rw [hr] at h hro
+        simp only [ISt.unload, Bool.false_eq_true, if_false, Res.thrown.injEq] at h
+        subst h
+        exact hro
+  · cases h
+
+
+-- non-vacuity: the caller is inside a TRY, has own uncommitted writes and one notification; the
+-- callee writes, notifies, moves GAS, calls a third contract and throws
+example :
+    let s : ISt := ⟨[.set (0, 1) 2], [[.set (gasTab, 1) 10]], [(0, 1)], false⟩
+    let body : Tree := .seq (.put 1 3) (.seq (.notify 2) (.seq (.native (.transfer 0 7 3 false) Flags.all .skip)
+      (.seq (.call 2 Flags.all (.put 0 9)) .throw)))
+    im (.call 1 Flags.all body) ⟨0, Flags.all, true, true⟩ s = .thrown { s with exc := true } := rfl
+
 /-! ### 4. The facts the model contains literally, re-read from the source on every run -/
 
 open NeoModel.Generated in
@@ -219,11 +281,11 @@ open NeoModel.Generated in
     commit flag of unloadContext, the states ContractHasTryBlock counts, the frames handleException
     skips / catches with, the condition under which blockchain.go persists a transaction's layer. -/
 theorem facts_mechanism :
-    ExecFacts.wrapExpr = "ic.VM.ContractHasTryBlock() && f&(callflag.All^callflag.ReadOnly) != 0" ∧
+    ExecFacts.wrapUsesHasTryBlock = true ∧
     ExecFacts.commitExpr = "v.uncaughtException == nil" ∧
-    ExecFacts.hasTryConds = ["eCtx.State == eTry || (eCtx.State == eCatch && eCtx.HasFinally())"] ∧
-    ExecFacts.handlerConds = ["ectx.State == eFinally || (ectx.State == eCatch && !ectx.HasFinally())",
-      "ectx.State == eTry && ectx.HasCatch()"] ∧
+    ExecFacts.hasTryConds = ["e.State == eTry || (e.State == eCatch && e.HasFinally())"] ∧
+    ExecFacts.handlerConds = ["e.State == eFinally || (e.State == eCatch && !e.HasFinally())",
+      "e.State == eTry && e.HasCatch()"] ∧
     ExecFacts.persistConds = ["!v.HasFailed()"] := by decide
 
 
